@@ -16,7 +16,7 @@ the cost layer next to it counts
 * `cells` — container cells allocated (deque slots filled, vector elements collected, frames queued).
 Nanoseconds and bytes are NOT modelled.
 
-The handlers follow the code WITH `repo_patches/fix-C04-*.diff` applied; the unchanged code is kept as
+The handlers follow the code WITH `repo_patches/fix-C04-*.diff` applied (packet-number arrival: see the table); the unchanged code is kept as
 `…Old` (used by the `_fails` theorems and by the driver to explain a run against an unfixed tree):
 
 | fixed | unchanged |
@@ -24,7 +24,7 @@ The handlers follow the code WITH `repo_patches/fix-C04-*.diff` applied; the unc
 | `read_plain_packet`: `AckFrame::validate` ⇒ FRAME_ENCODING_ERROR before any consumer | `AckFrame::iter` underflows inside the first consumer (dev: panic; release: 2^62-element ranges) |
 | `PacketSpace::on_ack_rcvd` (qcongestion) walks the sent packets next to the ranges | visits every acknowledged packet number |
 | `RcvdJournal::on_rcvd_ack` filters `packet_include_ack` by the ranges | visits every acknowledged packet number |
-| `RcvdJournal::decode_pn`: more than `maxPnGap` beyond the largest ⇒ `TooLarge` (packet dropped) | `on_rcvd_pn` fills up to 2^31 cells |
+| (NOT in the fix set — `repo_patches/experimental-C04-pn-gap.diff`, `handlePn true`) `RcvdJournal::decode_pn`: more than `maxPnGap` beyond the largest ⇒ `TooLarge` (packet dropped) | `handlePn false` = the code as it is: `on_rcvd_pn` fills up to 2^31 cells |
 | `recv_new_cid_frame`: a sequence number more than `max maxSeqGap limit` beyond the largest received ⇒ CONNECTION_ID_LIMIT_ERROR before the insert | table resized to `seq` cells, `retire_prior_to` RETIRE frames |
 | `LocalCids::set_limit` issues at most `maxIssuedCids` ids | issues up to the peer's active_connection_id_limit (≤ 2^62−1) |
 
